@@ -896,7 +896,9 @@ class UWG(object):
     @blddensity.setter
     def blddensity(self, value):
         try:
-            assert self.vegcover + value <= 1, 'The sum of the blddensity, treecover '\
+            # (all three setters add blddensity + grasscover + treecover in this order, so that
+            # the rounded sum does not depend on which of them is assigned last)
+            assert value + self.grasscover + self.treecover <= 1, 'The sum of the blddensity, treecover '\
                 ' and grasscover ratios must be less than one. Got: {}, {} and {}, ' \
                 'respectively.'.format(value, self.treecover, self.grasscover)
         except AttributeError:
@@ -914,7 +916,7 @@ class UWG(object):
     @treecover.setter
     def treecover(self, value):
         try:
-            assert self.grasscover + self.blddensity + value <= 1, 'The sum of the ' \
+            assert self.blddensity + self.grasscover + value <= 1, 'The sum of the ' \
                 'blddensity, treecover and grasscover ratios must be less than one. ' \
                 'Got: {}, {} and {}, respectively.'.format(
                     self.blddensity, value, self.grasscover)
@@ -934,7 +936,7 @@ class UWG(object):
     @grasscover.setter
     def grasscover(self, value):
         try:
-            assert self.treecover + self.blddensity + value <= 1, 'The sum of the ' \
+            assert self.blddensity + value + self.treecover <= 1, 'The sum of the ' \
                 'blddensity, treecover and grasscover ratios must be less than one. ' \
                 'Got: {}, {} and {}, respectively.'.format(
                     self.blddensity, self.treecover, value)
